@@ -68,7 +68,7 @@ def tagged_extractors(idx, flag_toggle=()):
         idx = list(range(len(EXTRACTORS)))
     out = []
     for pos, i in enumerate(idx):
-        e = EXTRACTORS[i]
+        e = synthetic_extractor(i) if isinstance(i, str) else EXTRACTORS[i]
 
         def ctor(m, extra, offset=0, _c=e.constructor, _pos=pos):
             t = _c(m, extra, offset)
@@ -78,6 +78,47 @@ def tagged_extractors(idx, flag_toggle=()):
         flags = e.flags ^ re.I if pos in flag_toggle else e.flags
         out.append(dataclasses.replace(e, constructor=ctor, flags=flags))
     return out
+
+
+# Synthetic extractors for caller-chosen lists whose cache keys collide under
+# plausible non-injective encodings of (expressions, flags): the same
+# concatenation split at another place, one alternation against two patterns,
+# flags swapped between two patterns, another multiplicity of a duplicate.
+# "A" variants are appended to the list under test, "B" variants form the
+# foreign list that used the directory before.
+SYNTH = {
+    "shiftA1": (r"(Pub\. L\.) ", 0), "shiftA2": (r"(No\. \d+-\d+)", 0),
+    "shiftB1": (r"(Pub\. L\.)", 0), "shiftB2": (r" (No\. \d+-\d+)", 0),
+    "pipeA1": (r"(Stat\. Ann\.)|(Rev\. Code)", 0),
+    "pipeB1": (r"(Stat\. Ann\.)", 0), "pipeB2": (r"(Rev\. Code)", 0),
+    "flagA1": (r"(ex rel\.)", re.I), "flagA2": (r"(In re)", 0),
+    "flagB1": (r"(ex rel\.)", 0), "flagB2": (r"(In re)", re.I),
+    "dupA1": (r"(ex parte)", 0), "dupA2": (r"(ex parte)", 0), "dupA3": (r"(et al\.)", 0),
+    "dupB1": (r"(ex parte)", 0), "dupB2": (r"(et al\.)", 0), "dupB3": (r"(et al\.)", 0),
+    "nlA1": ("(Gen\\. Laws)\n(ch\\. \\d+)", 0),
+    "nlB1": (r"(Gen\. Laws)", 0), "nlB2": (r"(ch\. \d+)", 0),
+}
+SYNTH_FAMILIES = {
+    "shift": (["shiftA1", "shiftA2"], ["shiftB1", "shiftB2"]),
+    "pipe": (["pipeA1"], ["pipeB1", "pipeB2"]),
+    "flagswap": (["flagA1", "flagA2"], ["flagB1", "flagB2"]),
+    "dup": (["dupA1", "dupA2", "dupA3"], ["dupB1", "dupB2", "dupB3"]),
+    "newline": (["nlA1"], ["nlB1", "nlB2"]),
+}
+SYNTH_TEXTS = ["Pub. L. No. 94-142 and Pub. L. No. 1-2, see Pub. L. 3", "Stat. Ann. 1; Rev. Code 2; Stat. Ann. Rev. Code",
+               "State ex rel. Doe, EX REL. Roe, In re Poe, IN RE Moe, in re x", "ex parte Doe et al. ex parte et al.",
+               "Gen. Laws\nch. 12, Gen. Laws ch. 3"]
+
+
+def synthetic_extractor(name):
+    from eyecite.models import StopWordToken, TokenExtractor
+
+    rx, fl = SYNTH[name]
+
+    def whole(m, extra, offset=0):
+        return StopWordToken(m[0], m.start() + offset, m.end() + offset, groups={})
+
+    return TokenExtractor(rx, whole, flags=fl)
 
 
 _LOOSE = re.compile(r"\\w|(?<!\\)\.(?![*+?]?\))")
@@ -180,7 +221,7 @@ def _tok_full(t):
     return ser.token_key(t) + (getattr(t, "_vx", -1),)
 
 
-def _eval_texts(tok, texts, full):
+def _eval_texts(tok, texts, full, cits_too=True):
     from eyecite import get_citations
 
     out = []
@@ -195,6 +236,9 @@ def _eval_texts(tok, texts, full):
         except Exception as ex:
             item["cand_err"] = type(ex).__name__
             item["cand_tb"] = traceback.format_exc()[-1500:]
+        if not cits_too:
+            out.append(item)
+            continue
         try:
             cits = ser.citations(get_citations(text, tokenizer=tok))
             item["cits_d"] = seeds.digest(cits)
@@ -216,12 +260,12 @@ def refs_run(job):
     try:
         hs = HyperscanTokenizer(extractors=exts, cache_dir=None)
         hs.hyperscan_db
-        out["B"] = _eval_texts(hs, job["texts"], True)
+        out["B"] = _eval_texts(hs, job["texts"], True, not job.get("cands_only"))
     except Exception as ex:
         out["B_err"] = type(ex).__name__
         out["B_tb"] = traceback.format_exc()[-2000:]
     ref = Tokenizer(extractors=exts)
-    out["R"] = _eval_texts(ref, job["texts"], True)
+    out["R"] = _eval_texts(ref, job["texts"], True, not job.get("cands_only"))
     return out
 
 
@@ -242,7 +286,8 @@ def node_run(arg):
                 os._exit(3)
 
     seam = storage.Seam(D, chunk=job.get("chunk", 65536), crash=step.get("crash"),
-                        enospc_after=step.get("enospc"), gate=gate, oserr=step.get("oserr"))
+                        enospc_after=step.get("enospc"), gate=gate, oserr=step.get("oserr"),
+                        readonly=step.get("readonly"))
     load_log = []
     real_loadb = hyperscan.loadb
 
@@ -304,6 +349,18 @@ def node_run(arg):
             small = HyperscanTokenizer(extractors=exts[: int(step["pre_instance"])], cache_dir=None)
             list(small.extract_tokens(job["texts"][0][:2000]))
         tok = HyperscanTokenizer(extractors=exts, cache_dir=D)
+
+        def midlife(spec):
+            # the directory changes while the process lives: between building a
+            # tokenizer and first using it, or between two instances
+            seam.paused = True
+            try:
+                out.setdefault("mid_eff", []).append(apply_fault(D, spec))
+            finally:
+                seam.paused = False
+
+        if step.get("mid"):
+            midlife(step["mid"])
         tok.hyperscan_db
         out["texts"] = _eval_texts(tok, job["texts"], bool(step.get("full")))
         # a process often builds the tokenizer more than once (per request, per
@@ -311,6 +368,8 @@ def node_run(arg):
         # (not in a lifetime with an injected OS error: the error would be the
         # further instance's and be taken for a tokenizing failure)
         for _ in range(0 if step.get("oserr") else int(step.get("instances", 1)) - 1):
+            if step.get("mid_inst"):
+                midlife(step["mid_inst"])
             tok2 = HyperscanTokenizer(extractors=exts, cache_dir=D)
             again = _eval_texts(tok2, job["texts"][:4], False)
             for a, b in zip(again, out["texts"]):
@@ -684,7 +743,7 @@ def judge_differential(job, refs, out):
             spans = {}
             for k in bk:
                 spans.setdefault((k[1], k[2]), []).append(k)
-            if all(len(v) == 1 for v in spans.values()):
+            if all(len(v) == 1 for v in spans.values()) and not job.get("cands_only"):
                 st["cits_compared"] += 1
                 if "cits_err" in r:
                     st["ref_raises"] += 1
@@ -785,6 +844,10 @@ def _judge_life(job, step, si, kind, res, Bd, out, last_fault, start, who=None):
         return "harness"
     for lo in res.get("load", []):
         st["load_outcomes"][lo] += 1
+    for eff in res.get("mid_eff", []):
+        st["faults"]["midlife:" + eff["f"]] += 1
+        if eff.get("effective"):
+            st["faults_effective"]["midlife:" + eff["f"]] += 1
     for o in res.get("ops", []):
         if isinstance(o[3], str) and o[3].startswith("injected-"):
             st["oserr_fired"][f"{o[3][9:]}@{o[1]}"] += 1
@@ -1189,6 +1252,9 @@ class RunGen:
                 life["pre_instance"] = fg.choice([1, 2, 5])
             if fg.random() < 0.25:
                 life["instances"] = fg.choice([2, 3])
+            if fg.random() < 0.08 and "oserr" not in life:
+                life["mid_inst" if life.get("instances") and fg.random() < 0.5 else "mid"] = {
+                    k: v for k, v in self.fault(fg).items() if k not in ("k", "target")}
             if fg.random() < 0.15:
                 life["clock"] = fg.choice([3600.0, -3600.0, 86400.0 * 400, -86400.0 * 400,
                                            86400.0 * 3650, -86400.0 * 3650])
@@ -1397,6 +1463,64 @@ class RunGen:
                 jobs.append({"seed": seeds.h64(root, "grid-oldpair", nm, si), "kind": "grid",
                              "cell": f"pair-{nm}-{si}", "ext": ext, "chunk": [512, 4096, 65536][si % 3],
                              "texts": texts, "classes": {}, "steps": steps})
+        # an existing cache directory that cannot be changed (read-only mount, files
+        # owned by another user): reads work, every change fails -- a state of the
+        # directory, so these lifetimes are judged in full
+        ro_pre = [("intact", []), ("truncated", [{"k": "fault", "f": "truncate", "at": ["frac", 0.5]}]),
+                  ("empty-file", [{"k": "fault", "f": "truncate", "at": ["abs", 0]}]),
+                  ("foreign-version", [{"k": "fault", "f": "header", "field": "version", "value": "00040405"}]),
+                  ("lost", [{"k": "fault", "f": "lose_file"}]), ("zero-tail", [{"k": "fault", "f": "zero_tail", "at": ["abs", 20]}])]
+        for nm, pre in ro_pre:
+            for en in ("EROFS", "EACCES", "EPERM"):
+                jobs.append({"seed": seeds.h64(root, "grid-ro", nm, en), "kind": "grid",
+                             "cell": f"readonly-{nm}-{en}", "ext": ext, "chunk": 65536, "texts": texts,
+                             "classes": {},
+                             "steps": [{"k": "life"}] + pre + [{"k": "life", "readonly": en},
+                                                              {"k": "life", "readonly": en, "instances": 2},
+                                                              {"k": "life"}, {"k": "life"}]})
+        # long documents: offsets beyond 64 KiB / 1 MiB, tens of thousands of hits,
+        # and -- every second character being multi-byte -- a multi-byte character
+        # across every fixed byte offset for one of the shifts
+        small = sorted(set(self.special) | set(ext[:12])) if isinstance(ext, list) else ext
+        dense = ("\u201c1 U.S. 1\u201d; \u00a7 2\u2014id. at 3\u00e9 2 F.2d 4\u00a0\u00b6 5; supra \u00e9\u00e8\u00ea "
+                 + (texts[0][:120] if texts else "") + " \u00a7\u00a7 7\u20138\n")
+        from eyecite.tokenizers import EXTRACTORS as _ALL
+
+        hit = [i for i, e in enumerate(_ALL) if re.search(e.regex, dense, e.flags)]
+        small = sorted(set(self.special) | set(hit[:40]))
+        for size in (70_000, 140_000, 400_000, 1_300_000):
+            for shift in ((0, 1, 2) if size < 1_000_000 else (0,)):
+                doc = ("x" * shift + dense * (size // len(dense.encode("utf8")) + 1))
+                doc = doc.encode("utf8")[:size].decode("utf8", "ignore")
+                jobs.append({"seed": seeds.h64(root, "grid-long", size, shift), "kind": "grid",
+                             "cell": f"long-{size}-shift{shift}", "ext": small, "chunk": 65536,
+                             "texts": [doc], "classes": {"long-document": 1}, "steps": [],
+                             "cands_only": size > 200_000})
+        # the directory changes inside a lifetime: after the tokenizer was built and
+        # before its first use, and between two instances of one process
+        mids = [{"f": "rm_dir"}, {"f": "empty_dir"}, {"f": "truncate", "at": ["frac", 0.5]},
+                {"f": "truncate", "at": ["abs", 0]}, {"f": "as_dir"}, {"f": "garbage", "len": 4096, "seed": 3},
+                {"f": "header", "field": "version", "value": "00040405"}, {"f": "zero_tail", "at": ["abs", 20]}]
+        for mi, m in enumerate(mids):
+            for nm, steps in (("first", [{"k": "life", "mid": m}, {"k": "life"}, {"k": "life"}]),
+                              ("cached", [{"k": "life"}, {"k": "life", "mid": m}, {"k": "life"}, {"k": "life"}]),
+                              ("inst", [{"k": "life"}, {"k": "life", "instances": 3, "mid_inst": m}, {"k": "life"}])):
+                jobs.append({"seed": seeds.h64(root, "grid-mid", mi, nm), "kind": "grid",
+                             "cell": f"mid-{nm}-{mi}-{m['f']}", "ext": ext, "chunk": 65536, "texts": texts,
+                             "classes": {}, "steps": steps})
+        # caller-chosen lists whose cache keys must differ although a careless
+        # encoding of (expressions, flags) makes them equal: the foreign list uses
+        # the directory first, then the list under test
+        for fam, (a_names, b_names) in SYNTH_FAMILIES.items():
+            for base_n, base in (("real", list(ext)), ("bare", [])):
+                if base_n == "real" and not isinstance(ext, list):
+                    continue
+                main, alt = base + a_names, base + b_names
+                jobs.append({"seed": seeds.h64(root, "grid-keyinj", fam, base_n), "kind": "grid",
+                             "cell": f"keyinj-{fam}-{base_n}", "ext": main, "chunk": 65536,
+                             "texts": list(texts[:4]) + SYNTH_TEXTS, "classes": {},
+                             "steps": [{"k": "life", "ext_alt": alt}, {"k": "life"}, {"k": "life", "instances": 2},
+                                       {"k": "life", "ext_alt": alt}, {"k": "life"}]})
         # an operating-system error (EIO, EACCES, EMFILE, EROFS, EINTR) at each of the
         # first storage operations of a first lifetime and of a lifetime that finds a
         # cache: that lifetime may fail with the injected error, the following must not
@@ -1689,6 +1813,10 @@ def run(tier, verif_seed, log=print):
     atlas = atlas_mod.build(workers=_cpu())
     gen = RunGen(atlas, tier)
     grid = gen.grid(ck.root)
+    if os.environ.get("VERIF_C14_CELLS"):
+        # development aid: only the grid cells whose name matches (never set by
+        # the registered commands)
+        grid = [j for j in grid if re.search(os.environ["VERIF_C14_CELLS"], str(j["cell"]))]
     ck.grid_cells = len(grid)
     # directed probes: every listed known finding is exercised on every run, so
     # that it is re-detected (KNOWN-FINDING line) for as long as it exists
